@@ -243,7 +243,7 @@ package olareg
 
 //@ func (s *Server) ServeHTTP(resp http.ResponseWriter, req *http.Request)
 //@   props C15 C14 C19 C16
-//@   requires s != nil && resp != nil && req != nil && req.URL != nil && resp.status == 0 && !fault() && !held(s.mu)
+//@   requires s != nil && resp != nil && req != nil && req.URL != nil && resp.status == 0 && !fault() && !held(s.mu) && !truncated()
 //@   requires s.store != nil ==> serverInv(s) && cacheInv(s.referrerCache) && !held(s.referrerCache.mu) && pagesNonEmpty(s)
 //@   requires s.store != nil && s.conf.API.RateLimit > 0 ==> s.rateLimit != nil && cacheInv(s.rateLimit) && !held(s.rateLimit.mu) && (s.referrerCache.timer == nil || s.referrerCache.timer != s.rateLimit.timer)
 //@   ensures [answered] resp.status != 0
